@@ -222,7 +222,7 @@ func head(b []byte) []byte {
 
 func TestC03(t *testing.T) {
 	c := rt.Get()
-	n := c.N(12000, 240000)
+	n := c.N(12000, 500000)
 	for i := 0; i < n; i++ {
 		if !c.Mine("stream", i) {
 			continue
